@@ -349,12 +349,29 @@ def part_units(ctx, cfg):
     st = Store({'q': {'_default': 2 * declared, '_updater': updater,
                       '_units': declared}})
     st.apply_defaults()
-    st.apply_update({'q': mag * uu})
+    upd = mag * uu
+    upd_before = (upd.magnitude, str(upd.units))
+    st.apply_update({'q': upd})
     val = st.get_value()['q']
     exp = (mag * uu).to(declared) + (2 * declared if updater == 'accumulate'
                                      else 0 * declared)
     ok = hasattr(val, 'units') and val.units == declared and \
         abs(val.magnitude - exp.magnitude) <= 1e-9 * max(1, abs(exp.magnitude))
+    # the update object handed in is not modified (magnitude AND unit)
+    ok = ok and (upd.magnitude, str(upd.units)) == upd_before
+    # one quantity object used as the update of two variables declared in
+    # different units: each ends in its own declared units
+    other = {'gram': units.mg, 'milligram': units.g, 'meter': units.mm,
+             'second': units.ms}[str(declared)]
+    st2 = Store({'a': {'_default': 1 * declared, '_updater': 'set',
+                       '_units': declared},
+                 'b': {'_default': 1 * other, '_updater': 'set',
+                       '_units': other}})
+    st2.apply_defaults()
+    shared = mag * uu
+    st2.apply_update({'a': shared, 'b': shared})
+    v2 = st2.get_value()
+    ok = ok and v2['a'].units == declared and v2['b'].units == other
     ctx.claim('C08.units', ok, sig='units',
               info=lambda: dict(declared=str(declared), update=str(mag * uu),
                                 got=str(val)))
